@@ -1637,6 +1637,12 @@ pub fn eval_ternary_equality(lhs: &Value, rhs: &Value) -> Option<bool> {
     Value::Context(ls) => match rhs {
       Value::Context(rs) => {
         if ls.keys().len() == rs.keys().len() {
+          for key in ls.keys() {
+            if rs.get_entry(key).is_none() {
+              // contexts with different sets of keys are NOT EQUAL
+              return Some(false);
+            }
+          }
           for (key1, value1) in ls.deref() {
             if let Some(value2) = rs.get_entry(key1) {
               if let Some(equal) = eval_ternary_equality(value1, value2) {
